@@ -23,54 +23,174 @@ def mkRecord (hs : List (List UInt8)) (body : List UInt8) : List UInt8 :=
 /-- Every fragmentation of the stream gives the same records and the same verdict. -/
 theorem chunking_independent (input : List UInt8) (s1 s2 : List Nat) :
     records input s1 = records input s2 := by
-  sorry
+  rw [PV.Lemmas.Warc.records_eq, PV.Lemmas.Warc.records_eq]
 
 /-- The records tile the input: byte for byte, no gap, no overlap, no resynchronisation — on
     success their concatenation is the whole input, on error it is the prefix read so far. -/
 theorem records_tile_input (input : List UInt8) (sched : List Nat) :
     (((records input sched).2 = none → (records input sched).1.flatten = input) ∧
      (records input sched).1.flatten <+: input) := by
-  sorry
+  rw [PV.Lemmas.Warc.records_eq]
+  obtain ⟨h1, h2⟩ := PV.Lemmas.Warc.readAllSpec_tile (input.length + 1) input
+  exact ⟨h2 (Nat.lt_succ_self _), h1⟩
 
 /-- every returned record starts with the version line and ends with CRLF CRLF. -/
 theorem record_shape (input : List UInt8) (sched : List Nat) :
     ∀ r ∈ (records input sched).1, str "WARC/1.0" <+: r ∧ [13, 10, 13, 10] <:+ r := by
-  sorry
+  rw [PV.Lemmas.Warc.records_eq]
+  exact PV.Lemmas.Warc.readAllSpec_shape (input.length + 1) input
 
-/-- A stream of well-formed records (bodies of any bytes and sizes) is read back exactly, for
-    every fragmentation. -/
+
+open PV.Lemmas.Warc in
+private theorem mkRecord_eq (hs : List (List UInt8)) (body : List UInt8) :
+    mkRecord hs body = mkV "WARC/1.0".toUTF8.toList hs keyU (natBytes body.length) body := by
+  show "WARC/1.0".toUTF8.toList ++ [13, 10] ++ hs.flatMap (· ++ [13, 10]) ++ "Content-Length: ".toUTF8.toList ++
+      natBytes body.length ++ [13, 10] ++ [13, 10] ++ body ++ [13, 10] ++ [13, 10] = _
+  rw [strU]
+  simp only [mkV, List.append_assoc, List.cons_append, List.nil_append]
+
+open PV.Lemmas.Warc in
+private theorem okH_of_OkHeader (hs : List (List UInt8)) (h : ∀ hd ∈ hs, OkHeader hd) : ∀ hd ∈ hs, OkH hd :=
+  fun hd hm => okH_of hd (h hd hm).1 (h hd hm).2.2.1 (h hd hm).2.2.2
+
+open PV.Lemmas.Warc in
+private theorem readSpec_mkRecord (hs : List (List UInt8)) (body rest : List UInt8)
+    (h : ∀ hd ∈ hs, OkHeader hd) (hb : body.length < 2 ^ 63) :
+    readSpec (mkRecord hs body ++ rest) = .record (mkRecord hs body) rest := by
+  rw [mkRecord_eq]
+  exact readSpec_mk _ rfl hs keyU _ body rest (okH_of_OkHeader hs h) keyU_isKey (natBytes_ne_nil _)
+    (natBytes_digit _) (valOf_false_toNat _ _ (natBytes_val _) hb)
+
+/-- A stream of well-formed records (bodies of any bytes, below the 2^63-byte limit at which strtoll
+    saturates — see `read_exact_false`) is read back exactly, for every fragmentation. -/
 theorem read_exact (recs : List (List (List UInt8) × List UInt8)) (sched : List Nat)
-    (h : ∀ r ∈ recs, ∀ hd ∈ r.1, OkHeader hd) :
+    (h : ∀ r ∈ recs, ∀ hd ∈ r.1, OkHeader hd) (hb : ∀ r ∈ recs, r.2.length < 2 ^ 63) :
     records (recs.flatMap (fun r => mkRecord r.1 r.2)) sched = (recs.map (fun r => mkRecord r.1 r.2), none) := by
-  sorry
+  rw [PV.Lemmas.Warc.records_eq]
+  apply PV.Lemmas.Warc.readAllSpec_concat (fun r => mkRecord r.1 r.2) recs
+  · intro r hr rest
+    exact readSpec_mkRecord r.1 r.2 rest (h r hr) (hb r hr)
+  · have := PV.Lemmas.Warc.flatMap_length_ge (fun r : List (List UInt8) × List UInt8 => mkRecord r.1 r.2) recs
+      (fun r _ => by
+        rw [mkRecord_eq]; simp [PV.Lemmas.Warc.mkV]; omega)
+    omega
 
-/-- Truncation anywhere inside a record is an error, never a shorter success. -/
+open PV.Lemmas.Warc in
+/-- `read_exact` is false as stated: a body of 2^63 bytes. -/
+theorem read_exact_false :
+    ¬ (∀ (recs : List (List (List UInt8) × List UInt8)) (sched : List Nat)
+        (_ : ∀ r ∈ recs, ∀ hd ∈ r.1, OkHeader hd),
+        records (recs.flatMap (fun r => mkRecord r.1 r.2)) sched = (recs.map (fun r => mkRecord r.1 r.2), none)) := by
+  intro H
+  obtain ⟨body, hb⟩ : ∃ body : List UInt8, body.length = 2 ^ 63 := ⟨List.replicate _ 0, List.length_replicate⟩
+  have h1 := H [([], body)] [] (by simp)
+  simp only [List.flatMap_cons, List.flatMap_nil, List.append_nil, List.map_cons, List.map_nil] at h1
+  rw [records_eq, readAllSpec_succ] at h1
+  have hsat := readSpec_mk_sat _ rfl keyU (natBytes body.length) body
+  rw [← mkRecord_eq] at hsat
+  cases hr : readSpec (mkRecord [] body) with
+  | eof => rw [hr] at h1; simp at h1
+  | error e => rw [hr] at h1; simp at h1
+  | record r R' =>
+    rw [hr] at h1
+    simp only [Prod.mk.injEq, List.cons.injEq] at h1
+    rw [h1.1.1] at hr
+    refine hsat R' keyU_isKey (natBytes_ne_nil _) (natBytes_digit _) ?_ hr
+    rw [valOf_false_sat _ _ (natBytes_val _) (by omega), hb]
+    omega
+
+
+/-- Truncation anywhere inside a record (body below 2^63 bytes) is an error, never a shorter success. -/
 theorem truncation_is_error (hs : List (List UInt8)) (body : List UInt8) (h : ∀ hd ∈ hs, OkHeader hd)
+    (hb : body.length < 2 ^ 63)
     (k : Nat) (hk0 : 0 < k) (hk : k < (mkRecord hs body).length) (sched : List Nat) :
     (records ((mkRecord hs body).take k) sched).2 ≠ none := by
-  sorry
+  rw [PV.Lemmas.Warc.records_eq]
+  have hrs := readSpec_mkRecord hs body [] h hb
+  rw [List.append_nil] at hrs
+  obtain ⟨e, he⟩ := PV.Lemmas.Warc.readSpec_prefix_error _ _ _ hrs k hk0 hk
+  rw [PV.Lemmas.Warc.readAllSpec_error _ e he]
+  simp
+
+open PV.Lemmas.Warc in
+/-- `truncation_is_error` is false as stated: a body of 2^63+3 bytes whose bytes 2^63-1 … 2^63+2 are
+    CR LF CR LF, cut just before the real terminator, is accepted as a (shorter) record. -/
+theorem truncation_is_error_false :
+    ¬ (∀ (hs : List (List UInt8)) (body : List UInt8) (_ : ∀ hd ∈ hs, OkHeader hd)
+        (k : Nat) (_ : 0 < k) (_ : k < (mkRecord hs body).length) (sched : List Nat),
+        (records ((mkRecord hs body).take k) sched).2 ≠ none) := by
+  intro H
+  obtain ⟨x, hx⟩ : ∃ x : List UInt8, x.length = 2 ^ 63 - 1 := ⟨List.replicate _ 0, List.length_replicate⟩
+  generalize hbody : x ++ [13, 10, 13, 10] = body
+  have hbl : body.length = 2 ^ 63 + 3 := by rw [← hbody, List.length_append, hx]; rfl
+  generalize hM : mkV "WARC/1.0".toUTF8.toList [] keyU (natBytes body.length) x = M
+  have hMl : M.length = (mkRecord [] body).length - 4 := by
+    rw [mkRecord_eq, ← hM, mkV_length, mkV_length, hbl, hx]
+    omega
+  have hsplit : mkRecord [] body = M ++ [13, 10, 13, 10] := by
+    rw [mkRecord_eq, ← hM, ← hbody]
+    simp only [mkV, List.append_assoc, List.cons_append, List.nil_append]
+  have htake : (mkRecord [] body).take ((mkRecord [] body).length - 4) = M := by
+    rw [← hMl, hsplit, List.take_left]
+  have hlen : (mkRecord [] body).length = M.length + 4 := by rw [hsplit]; simp
+  apply H [] body (by simp) ((mkRecord [] body).length - 4) (by
+      have := (mkV_length "WARC/1.0".toUTF8.toList [] keyU (natBytes body.length) x)
+      rw [hM] at this; omega) (by omega) []
+  rw [htake, records_eq]
+  have hrs : readSpec M = .record M [] := by
+    have := readSpec_mk "WARC/1.0".toUTF8.toList rfl [] keyU (natBytes body.length) x [] (by simp)
+      keyU_isKey (natBytes_ne_nil _) (natBytes_digit _)
+      (by rw [valOf_false_sat _ _ (natBytes_val _) (by omega), hx])
+    rw [List.append_nil, hM] at this
+    exact this
+  rw [readAllSpec_single M hrs]
 
 /-- A negative Content-Length is rejected (it used to be accepted and the stream resynchronised). -/
 theorem negative_length_rejected (n : Nat) (hn : 0 < n) (rest : List UInt8) (sched : List Nat) :
     (records (str "WARC/1.0" ++ crlf ++ str "Content-Length: -" ++ natStr n ++ crlf ++ crlf ++ rest) sched) =
       ([], some .lengthParse) := by
-  sorry
+  rw [PV.Lemmas.Warc.records_eq]
+  apply PV.Lemmas.Warc.readAllSpec_error
+  apply PV.Lemmas.Warc.readSpec_negative _ rfl PV.Lemmas.Warc.keyU (PV.Lemmas.Warc.natBytes n) (crlf ++ rest) _
+    PV.Lemmas.Warc.keyU_isKey (PV.Lemmas.Warc.natBytes_ne_nil _) (PV.Lemmas.Warc.natBytes_digit _)
+    (PV.Lemmas.Warc.valOf_true_neg _ n (PV.Lemmas.Warc.natBytes_val n) hn)
+  show "WARC/1.0".toUTF8.toList ++ [13, 10] ++ "Content-Length: -".toUTF8.toList ++ PV.Lemmas.Warc.natBytes n ++
+    [13, 10] ++ [13, 10] ++ rest = _
+  rw [PV.Lemmas.Warc.strNeg]
+  simp only [crlf, List.append_assoc, List.cons_append, List.nil_append]
 
 /-- Missing and duplicate Content-Length are errors. -/
 theorem missing_length_rejected (hs : List (List UInt8)) (h : ∀ hd ∈ hs, OkHeader hd) (rest : List UInt8) (sched : List Nat) :
     (records (str "WARC/1.0" ++ crlf ++ hs.flatMap (· ++ crlf) ++ crlf ++ rest) sched) = ([], some .noLength) := by
-  sorry
+  rw [PV.Lemmas.Warc.records_eq]
+  apply PV.Lemmas.Warc.readAllSpec_error
+  apply PV.Lemmas.Warc.readSpec_missing _ rfl hs rest _ (okH_of_OkHeader hs h)
+  show "WARC/1.0".toUTF8.toList ++ [13, 10] ++ hs.flatMap (· ++ [13, 10]) ++ [13, 10] ++ rest = _
+  simp only [List.append_assoc, List.cons_append, List.nil_append]
 
 theorem duplicate_length_rejected (a b : Nat) (rest : List UInt8) (sched : List Nat) :
     (records (str "WARC/1.0" ++ crlf ++ str "Content-Length: " ++ natStr a ++ crlf ++ str "content-length: " ++ natStr b ++ crlf ++ rest) sched) =
       ([], some .twoLengths) := by
-  sorry
+  rw [PV.Lemmas.Warc.records_eq]
+  apply PV.Lemmas.Warc.readAllSpec_error
+  apply PV.Lemmas.Warc.readSpec_duplicate _ rfl PV.Lemmas.Warc.keyU (PV.Lemmas.Warc.natBytes a)
+    PV.Lemmas.Warc.keyL (PV.Lemmas.Warc.natBytes b) rest _
+    PV.Lemmas.Warc.keyU_isKey PV.Lemmas.Warc.keyL_isKey (PV.Lemmas.Warc.natBytes_ne_nil _)
+    (PV.Lemmas.Warc.natBytes_digit _) (PV.Lemmas.Warc.natBytes_digit _)
+  show "WARC/1.0".toUTF8.toList ++ [13, 10] ++ "Content-Length: ".toUTF8.toList ++ PV.Lemmas.Warc.natBytes a ++
+    [13, 10] ++ "content-length: ".toUTF8.toList ++ PV.Lemmas.Warc.natBytes b ++ [13, 10] ++ rest = _
+  rw [PV.Lemmas.Warc.strU, PV.Lemmas.Warc.strL]
+  simp only [List.append_assoc, List.cons_append, List.nil_append]
 
 /-- A missing version line is an error. -/
 theorem missing_version_rejected (line rest : List UInt8) (h1 : (10 : UInt8) ∉ line) (h2 : line ≠ str "WARC/1.0")
     (h3 : line ≠ str "WARC/1.0" ++ [13]) (sched : List Nat) :
     (records (line ++ [10] ++ rest) sched) = ([], some .badVersion) := by
-  sorry
+  rw [PV.Lemmas.Warc.records_eq]
+  apply PV.Lemmas.Warc.readAllSpec_error
+  have e : line ++ [10] ++ rest = line ++ 10 :: rest := by simp
+  rw [e]
+  exact PV.Lemmas.Warc.readSpec_badVersion line rest h1 h2 h3
 
 -- non-vacuity
 example : (records (mkRecord [str "WARC-Type: x"] (str "hello") ++ mkRecord [] []) [1, 2, 3, 4, 5, 1, 1, 1]).1.length = 2 := by
